@@ -2008,6 +2008,25 @@ def _apply(case, pid, run, w, op):
         w.stats['sstate:' + state] += 1
         _post_event_node(w, 'server_state', [sname(sid), state, apps])
         guarded('event:server_state', lambda: w.m.process_events(w.store.children('/events')))
+    elif k == 'cellev':
+        # an admin removes a top-level bucket from the cell / puts it back (masterapi.cell_remove_bucket / _insert_).
+        # The Lean cell model has no operation that detaches or attaches a POPULATED bucket: from here on the
+        # state lines of this case are not compared any more (the stateless `f...` lines still are) and the case
+        # is judged by the monitors on the real objects only.  Not generated at random: see known finding F17.
+        if not getattr(w, 'poisoned', False):
+            w.poisoned = True
+            real_op = w.run.op
+            w.run.op = lambda line, obs: real_op(line, obs if line.split(' ')[0] in (
+                'fadj', 'fevt', 'fpres', 'fpend', 'fapp', 'fbkt', 'fsrv', 'fidg', 'frld', 'ftrt', 'fcode', 'fevs',
+                'fschd', 'fsrvs') else None)
+            w.run.tags.add('cell-event:state-lines-not-compared')
+        w.stats['cell-event:' + ('insert' if op[2] else 'remove')] += 1
+        if op[2]:
+            w.zput('/cell/' + op[1], None)
+        elif '/cell/' + op[1] in w.store.nodes:
+            w.zdel('/cell/' + op[1])
+        _post_event_node(w, 'cell', None)
+        guarded('event:cell', lambda: w.m.process_events(w.store.children('/events')))
     elif k == 'blacklist':
         w.zput('/blackedout.apps', op[1])
         for ev in (op[2] if len(op) > 2 else []):
